@@ -63,6 +63,14 @@ def gensOp (j : Json) : R Json := do
   | "cartan" =>
     let C ← matf n n j "C"
     return .arr ((fins n).map fun i => ofD (DMat.ofMatrix (refl C i))).toArray
+  | "cartanhyp" =>
+    -- `cartan_representation(C, diagonalize=True)`: the reflections of `C` itself, conjugated by the supplied pair
+    let C ← matf n n j "C"
+    let W := DMat.ofMatrix (← matf n n j "W")
+    let Wi := DMat.ofMatrix (← matf n n j "Winv")
+    if !(diagGuard (1 / 10000000000 : ℚ) W.toMatrix Wi.toMatrix) then throw "GeometryError"
+    return .arr ((fins n).map fun i =>
+      ofD (DMat.ofMatrix (conjMat W.toMatrix Wi.toMatrix (DMat.ofMatrix (refl C i)).toMatrix))).toArray
   | "vinberg" =>
     -- `tits_vinberg_rep(parameters)`
     let B ← getB n j
@@ -82,6 +90,7 @@ def gensOp (j : Json) : R Json := do
     let B ← getB n j
     let W := DMat.ofMatrix (← matf n n j "W")
     let Wi := DMat.ofMatrix (← matf n n j "Winv")
+    if !(diagGuard (1 / 10000000000 : ℚ) W.toMatrix Wi.toMatrix) then throw "GeometryError"
     return .arr ((fins n).map fun i =>
       ofD (DMat.ofMatrix (hypRep B W.toMatrix Wi.toMatrix i))).toArray
   | "canonhyp" =>
@@ -91,6 +100,7 @@ def gensOp (j : Json) : R Json := do
     if (fins n).any (fun i => B i i ≠ 1) then throw "diag-not-one"
     let W := DMat.ofMatrix (← matf n n j "W")
     let Wi := DMat.ofMatrix (← matf n n j "Winv")
+    if !(diagGuard (1 / 10000000000 : ℚ) W.toMatrix Wi.toMatrix) then throw "GeometryError"
     return .arr ((fins n).map fun i =>
       ofD (DMat.ofMatrix (hypRep B W.toMatrix Wi.toMatrix i).transpose)).toArray
   | _ => throw "unknown kind"
